@@ -342,6 +342,17 @@ func (w *metaWorld) runOp(kind, mode string, a []string) (res []lua.LValue, ek s
 				usedMode = "api"
 				api(func() []lua.LValue { return one(L.GetTable(o, k)) })
 			}
+		case "apig": // (used by C10's objspec family) LState.GetGlobal with `o` installed as the globals table
+			s, isStr := k.(lua.LString)
+			if tb, ok := o.(*lua.LTable); ok && isStr {
+				orig := L.G.Global
+				L.G.Global = tb
+				api(func() []lua.LValue { return one(L.GetGlobal(string(s))) })
+				L.G.Global = orig
+			} else {
+				usedMode = "api"
+				api(func() []lua.LValue { return one(L.GetTable(o, k)) })
+			}
 		default:
 			usedMode = "lua"
 			lcall("function(a, k) return a[k] end", o, k)
@@ -371,6 +382,17 @@ func (w *metaWorld) runOp(kind, mode string, a []string) (res []lua.LValue, ek s
 		case "apif":
 			if s, ok := k.(lua.LString); ok {
 				api(func() []lua.LValue { L.SetField(o, string(s), val); return nil })
+			} else {
+				usedMode = "api"
+				api(func() []lua.LValue { L.SetTable(o, k, val); return nil })
+			}
+		case "apig": // (used by C10's objspec family) LState.SetGlobal with `o` installed as the globals table
+			s, isStr := k.(lua.LString)
+			if tb, ok := o.(*lua.LTable); ok && isStr {
+				orig := L.G.Global
+				L.G.Global = tb
+				api(func() []lua.LValue { L.SetGlobal(string(s), val); return nil })
+				L.G.Global = orig
 			} else {
 				usedMode = "api"
 				api(func() []lua.LValue { L.SetTable(o, k, val); return nil })
